@@ -66,6 +66,10 @@ pub struct MigScenario {
     pub migration_limit: u64,
 }
 
+/// 0 = the blocking phase never times out (phases are frozen by gates); otherwise the cluster's
+/// `migration_max_blocking_time` in milliseconds (process-wide: used by the C11 timeout leg only).
+pub static MAX_BLOCKING_MS: std::sync::atomic::AtomicU64 = std::sync::atomic::AtomicU64::new(0);
+
 #[derive(Clone, Debug)]
 pub struct ScenarioOpts {
     pub from_nodes: usize,
@@ -137,7 +141,8 @@ impl MigScenario {
             .map_err(|e| format!("add_cluster: {}", e))?;
         let mut cfgm = HashMap::new();
         // the "force ahead" timeouts must not fire while phases are frozen
-        cfgm.insert("migration_max_blocking_time".to_string(), "4000000000".to_string());
+        let mbt = MAX_BLOCKING_MS.load(std::sync::atomic::Ordering::SeqCst);
+        cfgm.insert("migration_max_blocking_time".to_string(), if mbt == 0 { "4000000000".to_string() } else { mbt.to_string() });
         sys.broker
             .change_config(CLUSTER.to_string(), cfgm)
             .await
